@@ -20,7 +20,7 @@ import (
 	"github.com/formancehq/ledger/verifharness/stats"
 )
 
-const ruleExportFault = "export under an injected fault, through the API: a source of 101-260 logs (a short generated history, then generated transfers, metadata writes and reverts) is exported with POST /v2/{ledger}/logs/export while the k-th statement (k drawn among the statements a fault-free export of the same ledger runs) of that request is made to fail; the bytes received are posted unchanged to POST /v2/{copy}/logs/import on a fresh ledger; if the export answered 2xx and the import 204, the copy must hold every log of the source with the same hashes (a cut stream must never pass for a complete one); afterwards fault-free exports of the same ledger and of a neighbour must answer 2xx and carry exactly the stored logs: every stored id once and in increasing order, every hash equal to the recomputed chain hash and to the stored hash; non-trivial = the fault fired after at least one log had been handed to the writer (second page); distinct = by source history + fault position"
+const ruleExportFault = "export under an injected fault, through the API: a source of 101-260 logs (a short generated history, then generated transfers, metadata writes and reverts) is exported with POST /v2/{ledger}/logs/export while the k-th statement (k drawn among the statements a fault-free export of the same ledger runs) of that request is made to fail (an error of the statement, or a refusal for lack of connection slots, which the service retries for writes); an export answered 2xx whose body holds nothing but logs must carry the stored journal, once and in order; the bytes received are posted unchanged to POST /v2/{copy}/logs/import on a fresh ledger; if the export answered 2xx and the import 204, the copy must hold every log of the source with the same hashes (a cut stream must never pass for a complete one); afterwards fault-free exports of the same ledger and of a neighbour must answer 2xx and carry exactly the stored logs: every stored id once and in increasing order, every hash equal to the recomputed chain hash and to the stored hash; non-trivial = the fault fired after at least one log had been handed to the writer (second page); distinct = by source history + fault position"
 
 // runExportFault is registered for C11 (a truncated stream must not import as a complete ledger) and for C09
 // (recomputing the chain from the exported logs reproduces every stored hash, also after a failed export).
@@ -68,19 +68,39 @@ func runExportFault(t *testing.T, id string) {
 		if clean.Stmts > 2 && rapid.IntRange(0, 3).Draw(rt, "late") > 0 {
 			k = clean.Stmts - rapid.IntRange(0, 1).Draw(rt, "fromEnd")
 		}
-		tr := withFault(w.Env.Sim, faultPlan{Kind: "stmt-before", At: k}, func() {
+		// the failure: an error of the statement, or a refusal for lack of connection slots (which the service retries)
+		kind := rapid.SampledFrom([]string{"stmt-before", "refused"}).Draw(rt, "faultKind")
+		tr := withFault(w.Env.Sim, faultPlan{Kind: kind, At: k}, func() {
 			exp = w.httpCall("POST", "/v2/src/logs/export", nil)
 		})
 		stream := append([]byte(nil), exp.Body.Bytes()...)
 		// how many complete logs did the answer carry?
-		carried := 0
+		carried, onlyLogs := 0, true
+		var carriedIDs []uint64
 		dec := json.NewDecoder(bytes.NewReader(stream))
 		for dec.More() {
 			var lg ledger.Log
 			if err := dec.Decode(&lg); err != nil || lg.ID == nil {
+				onlyLogs = false // an error document, or something that is no log: the stream does not pass for an export
 				break
 			}
 			carried++
+			carriedIDs = append(carriedIDs, *lg.ID)
+		}
+		if exp.Code/100 == 2 && onlyLogs {
+			// answered as a success, and nothing in the body says otherwise: then it is the journal, once and in order
+			stored := w.rawLogs(src)
+			same := len(stored) == len(carriedIDs)
+			for i := 0; same && i < len(stored); i++ {
+				same = *stored[i].ID == carriedIDs[i]
+			}
+			if !same {
+				head := carriedIDs
+				if len(head) > 8 {
+					head = head[:8]
+				}
+				rt.Fatalf("VIOLATION[%s]: POST /v2/src/logs/export answered HTTP %d with %d logs and no error in the body while statement %d of the request failed (%s); the ledger stores %d logs: the exported journal is not the stored one (ids start %v; log #101 of the stream has id %v)", id, exp.Code, carried, k, kind, len(stored), head, idAt(carriedIDs, 100))
+			}
 		}
 		midStream := tr.Fired && carried > 0
 		total := len(src.M.Logs)
@@ -146,8 +166,8 @@ func runExportFault(t *testing.T, id string) {
 			}
 		}
 		st.Case(src.History()+fmt.Sprint(k), midStream, func() any {
-			return map[string]any{"source_logs": total, "statements_of_a_clean_export": clean.Stmts, "fault_at_statement": k, "fired": tr.Fired, "export_status": exp.Code, "logs_on_the_wire": carried, "import_status": imp.Code}
-		}, fmt.Sprintf("fired:%v", tr.Fired), fmt.Sprintf("mid-stream:%v", midStream), fmt.Sprintf("export-status:%d", exp.Code), fmt.Sprintf("import-status:%d", imp.Code))
+			return map[string]any{"source_logs": total, "statements_of_a_clean_export": clean.Stmts, "fault_at_statement": k, "fault_kind": kind, "fired": tr.Fired, "export_status": exp.Code, "logs_on_the_wire": carried, "import_status": imp.Code}
+		}, fmt.Sprintf("fired:%v", tr.Fired), "fault:"+kind, fmt.Sprintf("mid-stream:%v", midStream), fmt.Sprintf("export-status:%d", exp.Code), fmt.Sprintf("import-status:%d", imp.Code))
 		st.Add("completed_checks_exportfault", 1)
 	})
 }
@@ -176,6 +196,13 @@ func (w *World) rawLogs(l *LState) []ledger.Log {
 
 func TestC11ExportFault(t *testing.T) { runExportFault(t, "C11") }
 func TestC09ExportFault(t *testing.T) { runExportFault(t, "C09") }
+
+func idAt(ids []uint64, i int) any {
+	if i < len(ids) {
+		return ids[i]
+	}
+	return "-"
+}
 
 func idOf(l ledger.Log) uint64 {
 	if l.ID == nil {
